@@ -178,11 +178,15 @@ def _run_one(args):
     fn = _WORK[name]
     try:
         res = fn(case)
-    except Exception:
+    except Exception as exc:
+        # the harness reads a few private attributes named in the property anchors (sample arrays, kriging
+        # matrix); if such a name does not exist in the tree under test the case is undecided, not a violation
+        tb = traceback.extract_tb(exc.__traceback__)
+        internal = isinstance(exc, AttributeError) and "'_" in str(exc) and tb and "/gsverif/" in tb[-1].filename
         res = {
             "fails": [
                 {
-                    "what": "harness-exception",
+                    "what": "harness-internal-access" if internal else "harness-exception",
                     "observed": traceback.format_exc()[-1500:],
                     "expected": "no exception",
                     "tol": "",
@@ -364,6 +368,13 @@ class Check:
                 matched.setdefault(k["id"], [k, 0])[1] += 1
             else:
                 new.append((group, case, f, desc))
+        # private state the harness needs is missing: undecided, never a violation
+        internal = [x for x in new if x[2]["what"] == "harness-internal-access"]
+        new = [x for x in new if x[2]["what"] != "harness-internal-access"]
+        if internal and not new:
+            print(f"UNDECIDED: {self.pid}: {len(internal)} cases could not read private state named in the property anchors, e.g. {internal[0][2]['observed'][-200:]!r}")
+            self.write_evidence(0, note="undecided: private state missing")
+            return 2
         # evidence first (always rewritten)
         exit_code = 0
         lines = []
